@@ -1,5 +1,5 @@
 """C20 - interrupts: batch ^C stops everything, interactive ^C only reports."""
-import os, json
+import os, json, time
 import vlib, schedeng
 
 PROP = "C20"
@@ -193,6 +193,73 @@ def judge(run, n, f, batch, tconn, behs, hosts):
     return None
 
 
+def real_part(ctx, quick):
+    """real children through the exec transport, batch mode: one ^C must reach EVERY command that is running - also one that
+    has closed its stderr, also one whose process has been forked a moment ago and is not yet in a session of its own - and
+    pdsh must then end with status 1.  Returns (runs, [(case, expected, observed, text)])."""
+    import realeng, subprocess, signal
+    real = realeng.Real(ctx, tag="real20")
+    exe = os.path.join(real.dir, "bin", "pdsh")
+    shim = os.path.join(ctx.scratch, "slowsetsid.so")
+    brc, _ = vlib.sh(["gcc", "-shared", "-fPIC", "-O1", os.path.join(vlib.VERIF, "harness", "slowsetsid.c"), "-ldl", "-o", shim])
+    problems, nruns = [], 0
+    mark = os.path.join(ctx.scratch, "marks20")
+    # the commands: a program started directly (sleep), and a shell that waits for a child and leaves a mark if it runs to its end
+    shbody = "sleep %(tok)s & wait; echo end > %(mark)s/end.%%h"
+    variants = [("a program started directly", {}, 1.0, ["sleep", "%(tok)s"]),
+                ("a host has closed its stderr", {}, 1.0, ["sh", "-c", "case %%h in a) exec 2>&-;; esac; " + shbody]),
+                ("a shell waiting for its child", {}, 0.8, ["sh", "-c", shbody])]
+    if brc == 0:
+        variants.append(("the interrupt lands between fork() and the child's setsid()", {"LD_PRELOAD": shim, "SLOWSETSID_MS": "1500"}, 0.5, ["sleep", "%(tok)s"]))
+    for rep in range(1 if quick else 4):
+        for name, env, delay, cmd in variants:
+            import shutil
+            shutil.rmtree(mark, ignore_errors=True)
+            os.makedirs(mark)
+            tok = "4.%d%d" % (os.getpid() % 100000, nruns)        # a sleep length that names this run
+            e = {"PATH": "/usr/bin:/bin", "HOME": "/root", "LANG": "C"}
+            e.update(env)
+            p = subprocess.Popen([exe, "-b", "-R", "exec", "-f", "8", "-w", "a,b,c"] + [c % {"tok": tok, "mark": mark} for c in cmd], env=e,
+                                 stdout=subprocess.PIPE, stderr=subprocess.PIPE)
+            time.sleep(delay)
+            p.send_signal(signal.SIGINT)
+            nruns += 1
+            case = {"transport": "exec", "batch": True, "hosts": "a,b,c", "situation": name, "interrupt_after_s": delay, "command": cmd}
+            try:
+                o, er = p.communicate(timeout=15)
+                rc = p.returncode
+            except subprocess.TimeoutExpired:
+                p.kill(); p.communicate()
+                problems.append((case, "exit 1 after the interrupt", "still running 15 s later", "pdsh -b does not end after ^C (%s)" % name))
+                continue
+            if rc != 1:
+                problems.append((case, "exit 1", "exit %s" % rc, "pdsh -b exits %s after ^C (%s)" % (rc, name)))
+                continue
+            time.sleep(2.0 if env else 0.6)
+            # the command processes themselves (session leaders started by pdsh: their parent is gone, so they hang off init)
+            alive = []
+            for pid in os.listdir("/proc"):
+                if pid.isdigit():
+                    try:
+                        cl = open("/proc/%s/cmdline" % pid, "rb").read().split(b"\0")
+                        st = open("/proc/%s/stat" % pid).read().rsplit(")", 1)[1].split()
+                    except OSError:
+                        continue
+                    mine = cl == [b"sleep", tok.encode(), b""] if cmd[0] == "sleep" else cl[0].endswith(b"sh")
+                    if tok.encode() in b" ".join(cl) and st[1] == "1" and mine:
+                        alive.append(int(pid))
+            for pid in alive:
+                try:
+                    os.kill(pid, 9)
+                except OSError:
+                    pass
+            subprocess.run(["pkill", "-f", "sleep %s" % tok])
+            if alive:
+                problems.append((case, "every running command interrupted", "%d command(s) still running after pdsh has gone" % len(alive),
+                                 "batch ^C did not take effect on %d running command(s) (%s); pdsh said %r" % (len(alive), name, er[-200:])))
+    return nruns, problems
+
+
 def run(ctx):
     ctx.gen_params()
     ctx.prove()
@@ -276,6 +343,10 @@ def run(ctx):
             samples.append({"n": n, "fanout": f, "batch": batch, "signals": sigs, "events": " ".join(ru.sys_events())[:500], "exit": ru.exit, "exit_by": ru.exit_by})
         if nsched >= 5:
             break
+    nreal, rprob = real_part(ctx, quick)
+    for case, exp, obs, text in rprob[:3]:
+        bad += 1
+        ctx.violation("input", case=case, expected=exp, observed=obs, engine="exec", detail=text)
     have_input = any(v["kind"] != "no-failing-input-found" for v in ctx.violations)
     vlib.report_proof_break(ctx, have_input)
     cov = vlib.proof_coverage(ctx, {
